@@ -26,7 +26,10 @@ RULE = ('product family x source x window x n_T x T_mid-form x T_ref-position (f
         'call HISTORIES on caller-owned data (fit, fit again from the very same objects, look at the first fit '
         'again, overwrite the results, edit Cp/R in place, fit once more) enumerated over row order x container / '
         'dtype x source x second call (complete) and, deviation-bounded, window, T_mid form, T_ref position and '
-        'type; every fit of a history is judged by the oracles of parts A / B')
+        'type; every fit of a history is judged by the oracles of parts A / B. Part E: NASA-7 T_mid candidate LISTS = '
+        '3 inner candidates + one candidate near an end of the window (1-5 rows on the short side, both ends, between / on '
+        'rows) in every position, both ends together, end candidates only; x source (3 StatMech species via from_model, 2 '
+        'piecewise + 1 single polynomial via from_data) x 2 windows x n_T {50, 15} (x list / tuple / array)')
 ASSUMPTIONS = [
     'parts C / D (histories): tables have integer-valued temperatures (so that integer containers hold the same '
     'table); row orders are ascending, descending, second-half-first, two interleaved scans, middle-outwards, '
@@ -40,7 +43,12 @@ ASSUMPTIONS = [
     'family form to the source on the same segments; factor = 5 x the largest ratio seen for NASA-7/Shomate on the '
     'unchanged tree (50 / 12 / 7 for n_T = 15 / 50 / 200); H and S may deviate from the source by what the observed Cp error '
     'and the anchor allow (|dH/RT| <= sup|dCp| |T-T_ref|/T, |dS/R| <= sup|dCp| |ln(T/T_ref)|)',
-    'user-supplied T_mid candidates lie strictly inside the window and leave >= 5 data points on each side',
+    'user-supplied T_mid candidates lie strictly inside the window; in parts A - D they leave >= 5 data points on each '
+    'side; part E hands over NASA-7 candidate lists that also hold candidates leaving 1 - 5 rows on one side (between two '
+    'rows and exactly on a row) in every position of the list; tracking / reproduction is demanded when the chosen break '
+    'leaves >= 5 distinct rows on both sides (a 4th-order polynomial is not determined by fewer), the candidate and '
+    'least-squares-split clauses, anchor, continuity and bounds always; a row exactly on the chosen break may belong to '
+    'either side',
     'from_model reference temperatures are the documented ones: window mean (Nasa, Shomate), T_low (Nasa9)',
 ]
 EXPLANATION = ('every case is an execution of the real fitting code; anchor, continuity and bounds are checked on '
@@ -138,6 +146,14 @@ PLANNED_TAGS += (
     + ['mform:second=%s' % x for x in ('same', 'species', 'window')]
     + ['mform:%s T_mid=%s' % (f, x) for f in ('n7', 'n9')
        for x in ('none', 'scalar', 'int', 'list', 'tuple', 'array', 'iarray')])
+# part E (T_mid candidate lists with candidates near the ends of the window)
+PLANNED_TAGS += (
+    ['tmlist:cont=%s' % x for x in ('list', 'tuple', 'array')]
+    + ['tmlist:hugger at %s' % x for x in ('the front', 'the back', 'an inner position')]
+    + ['tmlist:hugger near %s' % x for x in ('T_low', 'T_high')]
+    + ['tmlist:some candidate leaves >= 5 rows on both sides', 'tmlist:end-hugging candidates only',
+       'tmlist:an end-hugging candidate was chosen', 'tmlist:a data row lies exactly on the reported break',
+       'tmlist:chosen break leaves < 5 rows on one side (tracking / reproduction skipped)'])
 
 
 # ------------------------------------------------------------------------------------ helpers
@@ -1296,20 +1312,209 @@ def _mforms_cases(fam, tier):
     return [d for d in cases if _valid_mforms(d)]
 
 
+# ------------------------------------------- part E: T_mid candidate LISTS with candidates near the ends
+# (fourth round, see notes/C03.md)  NASA-7 screens a caller-supplied list of break candidates.  The lists of
+# parts A - D hold only candidates in the middle of the window; here every list also holds candidates that hug
+# an end of the window (1 ... 5 data temperatures on the short side, between two rows and exactly on a row), in
+# every position of the list, alone, at both ends, and lists made of such candidates only.
+TML_INNER = [0.35, 0.5, 0.65]                   # candidates that leave >= 5 rows on both sides (n_T >= 15)
+TML_TRUE = 1                                    # piecewise data: the generating break is the 2nd inner candidate
+TML_SHORT = [1, 2, 3, 4, 5]                     # rows left on the short side (5 = the smallest legal side)
+TML_SPECIES = ['H2O', 'N2', 'ads6']
+TML_SRC = ['h2o_lo|h2o_hi', 'alt|ads', 'h2o_lo']
+TML_WINDOWS = [[100.0, 3000.0], [298.15, 1000.0]]
+TML_NT = [50, 15]
+CL_CAND = 'T_mid list: the reported T_mid is one of the candidates handed in'
+CL_SPLIT = ('T_mid list: each coefficient set is the least-squares fit of the data on its side of the reported T_mid '
+            '(rms residual at the data temperatures = the optimum of an independent fit)')
+
+
+def _tml_huggers(win, n_T):
+    """{name: temperature}: 'lo3' leaves 3 rows at or below it (between two rows), 'lo4=' lies exactly on the 4th
+    row; 'hi3' leaves 3 rows above it, 'hi4=' lies on the 5th row from the top (4 rows above)."""
+    T = np.linspace(win[0], win[1], n_T)
+    out = {}
+    for k in TML_SHORT:
+        out['lo%d' % k] = float(0.5 * (T[k - 1] + T[k]))
+        out['hi%d' % k] = float(0.5 * (T[n_T - k - 1] + T[n_T - k]))
+    out['lo4='] = float(T[3])
+    out['hi4='] = float(T[n_T - 5])
+    return out
+
+
+def _tml_lists(tier):
+    """[(list name, [candidate names])]: one end-hugging candidate in every position of the inner list; both ends;
+    end-hugging candidates only; one inner candidate behind / in front of two of them."""
+    inner = ['in0', 'in1', 'in2']
+    hug = ['%s%d' % (s, k) for k in TML_SHORT for s in ('lo', 'hi')] + ['lo4=', 'hi4=']
+    out = []
+    for h in hug:
+        for pos in range(len(inner) + 1):
+            out.append(('%s@%d' % (h, pos), inner[:pos] + [h] + inner[pos:]))
+    out += [('both-ends', ['lo2'] + inner + ['hi2']), ('both-first', ['hi2', 'lo2'] + inner),
+            ('both-last', inner + ['lo2', 'hi2']), ('only-huggers', ['lo2', 'hi2']), ('only-lo4', ['lo4']),
+            ('only-hi1', ['hi1']), ('one-inner-last', ['lo1', 'hi3', 'in1']), ('one-inner-first', ['in1', 'hi3', 'lo1']),
+            ('huggers-around', ['lo3', 'in0', 'hi3', 'in2', 'lo1'])]
+    if tier == 'thorough':
+        for a, b in itertools.product(hug[:8], repeat=2):
+            if a != b:
+                out.append(('%s,%s,inner' % (a, b), [a, b] + inner))
+    return out
+
+
+def _tml_values(case):
+    win = case['win']
+    table = _tml_huggers(win, case['n_T'])
+    for i, f in enumerate(TML_INNER):
+        table['in%d' % i] = _frac(win, f)
+    return [table[n] for n in case['cands']]
+
+
+def _tml_arg(case):
+    vals = _tml_values(case)
+    if case['cont'] == 'tuple':
+        return tuple(vals)
+    if case['cont'] == 'array':
+        return np.array(vals, dtype=np.float64)
+    return list(vals)
+
+
+def _side_optimum(T, y):
+    """rms residual of an independent least-squares fit of a 4th-order polynomial (numpy lstsq, columns scaled to the
+    largest temperature); zero when the side holds fewer than 5 distinct rows (the data can be interpolated)."""
+    if len(T) == 0:
+        return 0.0
+    x = np.asarray(T, dtype=float) / float(np.max(T))
+    A = np.stack([x ** k for k in range(5)], axis=1)
+    coef = np.linalg.lstsq(A, y, rcond=None)[0]
+    return float(np.sqrt(np.mean((A @ coef - y) ** 2)))
+
+
+def _tml_split_clauses(obj, T, CpoR, cands, sig, case, ctx):
+    """The reported break is one of the candidates, and a_low / a_high belong to THAT break."""
+    tm = float(obj.T_mid)
+    ctx.true(CL_CAND, any(tm == float(c_) for c_ in cands), sig, case, observed=tm, expected=[float(c_) for c_ in cands])
+    T = np.asarray(T, dtype=float)
+    CpoR = np.asarray(CpoR, dtype=float)
+    below = float(np.nextafter(tm, 0.0))
+    ctx.evals(len(T))
+    tried = []
+    # a row exactly ON the reported break may have been fitted with either side (the statement does not say which):
+    # both assignments are tried, the row being read from the polynomial of the side it is assigned to
+    for row_on_break in (['low', 'high'] if np.any(T == tm) else ['low']):
+        lo = (T < tm) | ((T == tm) & (row_on_break == 'low'))
+        fit = np.array([float(np.squeeze(obj.get_CpoR(T=below if (t == tm and row_on_break == 'low') else float(t))))
+                        for t in T])
+        obs, best = [], []
+        for side in (lo, ~lo):
+            obs.append(float(np.sqrt(np.mean((fit[side] - CpoR[side]) ** 2))) if np.any(side) else 0.0)
+            best.append(_side_optimum(T[side], CpoR[side]))
+        tried.append((max(abs(a - b) for a, b in zip(obs, best)), obs, best))
+    if len(tried) > 1:
+        ctx.tag('tmlist:a data row lies exactly on the reported break')
+    _, obs, best = min(tried, key=lambda t: t[0])
+    ctx.close(CL_SPLIT, obs, best, sig, case, rtol=1e-6, atol=1e-8 * (1.0 + float(np.max(np.abs(CpoR)))))
+    n_lo, n_hi = int(np.sum(np.unique(T) <= tm)), int(np.sum(np.unique(T) > tm))
+    return n_lo, n_hi
+
+
+def _sig_tmlist(case):
+    return {'fam': 'N7', 'entry': case['entry'], 'tmid': 'list with end-hugging candidates',
+            'source': _species_kind(case['src']) if case['entry'] == 'from_model'
+            else ('piecewise' if '|' in case['src'] else 'single')}
+
+
+def _eval_tmlist_case(case, ctx):
+    win, n_T, entry = case['win'], case['n_T'], case['entry']
+    sig = _sig_tmlist(case)
+    cands = _tml_values(case)
+    tm_arg = _tml_arg(case)
+    snap = _snapshot(tm_arg)
+    T = np.linspace(win[0], win[1], n_T)
+    legal = [c_ for c_ in cands if np.sum(T <= c_) >= 5 and np.sum(T > c_) >= 5]
+    ctx.tag('entry:' + entry)
+    ctx.tag('tmlist:cont=' + case['cont'])
+    ctx.tag('tmlist:some candidate leaves >= 5 rows on both sides' if legal else 'tmlist:end-hugging candidates only')
+    for pos, c_ in enumerate(cands):
+        if c_ not in legal:
+            ctx.tag('tmlist:hugger at %s' % ('the front' if pos == 0 else 'the back' if pos == len(cands) - 1 else 'an inner position'))
+            ctx.tag('tmlist:hugger near %s' % ('T_low' if c_ < 0.5 * (win[0] + win[1]) else 'T_high'))
+    if ctx.state(('tmlist', dict(case))):
+        ctx.nontrivial(('tmlist', dict(case)))
+    if entry == 'from_model':
+        name = case['src']
+        model = build_species(name)
+        obj = _class('N7').from_model(model=model, name='c03', T_low=win[0], T_high=win[1], T_mid=tm_arg, n_T=n_T)
+        ctx.trace()
+        CpoR = np.array([float(np.squeeze(model.get_CpoR(T=float(t)))) for t in T])
+        n_lo, n_hi = _tml_split_clauses(obj, T, CpoR, cands, sig, case, ctx)
+        if min(n_lo, n_hi) >= 5:
+            ctx.tag('src:statmech')
+            _judge_model_fit('N7', win, name, n_T, obj, model, sig, case, ctx, N_LATTICE_FORMS)
+        else:                               # fewer than 5 rows on one side of the chosen break: the data do not
+            #                                 determine that segment, no tracking demanded (anchor etc. still are)
+            ctx.tag('tmlist:chosen break leaves < 5 rows on one side (tracking / reproduction skipped)')
+            T_ref = (win[0] + win[1]) / 2.0
+            _common_clauses('N7', obj, np.array(win), T_ref, float(np.squeeze(model.get_HoRT(T=T_ref))),
+                            float(np.squeeze(model.get_SoR(T=T_ref))), sig, case, ctx)
+    else:
+        polys = [_poly('N7', n) for n in case['src'].split('|')]
+        pieces = rp.single(polys[0]) if len(polys) == 1 else rp.piecewise(polys, [_frac(win, TML_INNER[TML_TRUE])])
+        CpoR = np.array([rp.cp_pw(pieces, float(t)) for t in T])
+        href, sref = _ref_values(dict(case, fam='N7', tmid='|'.join(case['cands'])))
+        T_ref = _frac(win, case['tref'])
+        obj = _class('N7').from_data(name='c03', T=T, CpoR=CpoR, T_ref=T_ref, HoRT_ref=href, SoR_ref=sref, T_mid=tm_arg)
+        ctx.trace()
+        n_lo, n_hi = _tml_split_clauses(obj, T, CpoR, cands, sig, case, ctx)
+        ctx.tag('src:' + sig['source'])
+        if min(n_lo, n_hi) >= 5:
+            _judge_data_fit('N7', obj, pieces, T, win, T_ref, href, sref, sig, case, ctx, N_LATTICE_FORMS)
+        else:                               # fewer than 5 rows on one side of the chosen break: nothing to reproduce
+            ctx.tag('tmlist:chosen break leaves < 5 rows on one side (tracking / reproduction skipped)')
+            _common_clauses('N7', obj, T, T_ref, href, sref, dict(sig, branch=_branch('N7', _breaks_of('N7', obj), T_ref)),
+                            case, ctx)
+    ctx.true("caller's data: the T_mid list handed to the fit is left as it was", _snapshot(tm_arg) == snap, sig, case,
+             observed=_snapshot(tm_arg)[-1], expected=snap[-1])
+    if float(obj.T_mid) not in legal:
+        ctx.tag('tmlist:an end-hugging candidate was chosen')
+
+
+def _tmlist_cases(fam, tier):
+    if fam != 'N7':
+        return []
+    cases = []
+    lists = _tml_lists(tier)
+    for (lname, cands), win, n_T in itertools.product(lists, TML_WINDOWS, TML_NT):
+        for name in TML_SPECIES:
+            cases.append(dict(part='tmlist', entry='from_model', src=name, win=list(win), n_T=n_T, cands=list(cands),
+                              cont='list'))
+        for k, src in enumerate(TML_SRC):
+            cases.append(dict(part='tmlist', entry='from_data', src=src, win=list(win), n_T=n_T, cands=list(cands),
+                              cont='list', tref=[0.25, 0.8, 0.5][k]))
+    # the same lists handed over as a tuple / a float array (one species, one table)
+    for (lname, cands), cont in itertools.product(lists, ['tuple', 'array']):
+        if tier == 'thorough' or lname.endswith('@0') or '@' not in lname:
+            cases.append(dict(part='tmlist', entry='from_model', src='H2O', win=list(TML_WINDOWS[0]), n_T=50,
+                              cands=list(cands), cont=cont))
+            cases.append(dict(part='tmlist', entry='from_data', src=TML_SRC[0], win=list(TML_WINDOWS[0]), n_T=50,
+                              cands=list(cands), cont=cont, tref=0.25))
+    return cases
+
+
 def _all_cases(part, fam, tier):
     return {'data': _data_cases, 'model': _model_cases, 'forms': _forms_cases,
-            'mforms': _mforms_cases}[part](fam, tier)
+            'mforms': _mforms_cases, 'tmlist': _tmlist_cases}[part](fam, tier)
 
 
 # shard counts proportional to the measured cost of each part (cases are dealt round-robin)
 N_SHARDS = {'quick': {('data', 'N7'): 12, ('data', 'N9'): 4, ('data', 'SH'): 3,
                       ('model', 'N7'): 2, ('model', 'SH'): 4, ('model', 'N9'): 9,
                       ('forms', 'N7'): 4, ('forms', 'N9'): 4, ('forms', 'SH'): 4,
-                      ('mforms', 'N7'): 2, ('mforms', 'SH'): 2, ('mforms', 'N9'): 6},
+                      ('mforms', 'N7'): 2, ('mforms', 'SH'): 2, ('mforms', 'N9'): 6, ('tmlist', 'N7'): 4},
             'thorough': {('data', 'N7'): 20, ('data', 'N9'): 8, ('data', 'SH'): 16,
                          ('model', 'N7'): 3, ('model', 'SH'): 14, ('model', 'N9'): 35,
                          ('forms', 'N7'): 16, ('forms', 'N9'): 16, ('forms', 'SH'): 16,
-                         ('mforms', 'N7'): 6, ('mforms', 'SH'): 6, ('mforms', 'N9'): 24}}
+                         ('mforms', 'N7'): 6, ('mforms', 'SH'): 6, ('mforms', 'N9'): 24, ('tmlist', 'N7'): 8}}
 
 
 def shards(tier):
@@ -1353,6 +1558,10 @@ def bounds(tier):
             species=MFORM_SPECIES, windows=MFORM_WINDOWS, bound_types=MFORM_ARGTYPES, T_mid_forms=MFORM_TMID,
             second_call=MFORM_SECOND, deviation_level=2 if q else 3,
             cases={f: len(_mforms_cases(f, tier)) for f in ('N7', 'N9', 'SH')}),
+        tmid_candidate_lists=dict(
+            inner_fractions=TML_INNER, rows_on_the_short_side=TML_SHORT, on_a_row=['lo4=', 'hi4='],
+            lists=[n for n, _ in _tml_lists(tier)], species=TML_SPECIES, from_data_sources=TML_SRC, windows=TML_WINDOWS,
+            n_T=TML_NT, containers=['list', 'tuple', 'array'], cases=len(_tmlist_cases('N7', tier))),
         lattice_points=N_LATTICE)
 
 
@@ -1361,6 +1570,8 @@ def run_shard(shard, ctx):
     for case in cases[shard['k']::shard['n']]:
         if case['part'] in ('forms', 'mforms'):
             run_sig = _RUN_SIG              # kept current by the history (which step is running)
+        elif case['part'] == 'tmlist':
+            run_sig = _sig_tmlist(case)
         else:
             run_sig = _sig_data(case) if case['part'] == 'data' else _sig_model(case)
         ctx.run_case(check_case, case, run_sig)
@@ -1372,7 +1583,7 @@ def check_case(case, ctx):
     with warnings.catch_warnings():
         warnings.simplefilter('ignore')
         {'data': _eval_data_case, 'model': _eval_model_case, 'forms': _eval_forms_case,
-         'mforms': _eval_mforms_case}[case['part']](case, ctx)
+         'mforms': _eval_mforms_case, 'tmlist': _eval_tmlist_case}[case['part']](case, ctx)
 
 
 LEVEL_TEXT = ('Bounded exhaustive exploration of the real fitting code: the complete product family x generating '
@@ -1383,7 +1594,10 @@ LEVEL_TEXT = ('Bounded exhaustive exploration of the real fitting code: the comp
               'generating polynomials, tracking against the source model. Call histories on caller-owned data '
               '(row order x container / dtype x source x second call complete, the rest deviation-bounded): '
               'the table and the model are left as they were, a second fit from the very same objects and a fit '
-              'after an in-place edit are judged by the same oracles, results are fresh containers.')
+              'after an in-place edit are judged by the same oracles, results are fresh containers. NASA-7 T_mid candidate '
+              'lists with candidates that hug either end of the window in every position: the reported break is one of the '
+              'candidates, each coefficient set is the least-squares fit of the data on its side of the reported break '
+              '(independent lstsq), plus all clauses above.')
 LEVEL_NOTE = ('Finite alphabets (13 windows, n_T 15/50/200, listed sources); StatMech tracking is judged against the '
               'residual of an independent least-squares fit of the same form (factor 50/12/7 by n_T); Shomate reproduction tolerance 1e-6 because '
               'its Cp fit is iterative; reproduction is not demanded of under-determined NASA-9 segments (< 7 points). '
